@@ -355,7 +355,7 @@ def run(ctx):
                 if pl is None:
                     continue
                 d = fa.single_def(pl["l"])
-                if d and d[2] == "assign" and d[3]["k"] == "ref" and d[3].get("mut") and \
+                if d and d[2] == "assign" and d[3]["k"] == "ref" and d[3].get("bk") == "mut" and \
                         d[3]["place"]["l"] == L and not d[3]["place"]["p"]:
                     if _names(t) & {"take"}:
                         lv = "Z"
@@ -496,7 +496,7 @@ def rawinput(ctx):
                         for a in ct["args"]:
                             pl = op_place(a)
                             d = fa.single_def(pl["l"]) if pl else None
-                            if d and d[2] == "assign" and d[3]["k"] == "ref" and d[3].get("mut") and \
+                            if d and d[2] == "assign" and d[3]["k"] == "ref" and d[3].get("bk") == "mut" and \
                                     d[3]["place"]["l"] == l:
                                 fills.append(sorted(_names(ct))[0])
                     src = "buffer filled by %s" % (sorted(set(fills)) or "?")
